@@ -26,3 +26,4 @@ static void *w(void*a){ long id=(long)a; sched_thread_begin(id); unsigned s=(uns
   case 11: nsync_cv_broadcast(&cv); break; } }
  sched_thread_end(); return 0; }
 int main(int argc,char**argv){ seed=argc>1?strtoull(argv[1],0,0):1; NT=argc>2?atoi(argv[2]):3; NOPS=argc>3?atoi(argv[3]):12; if(argc>4) mixmask=strtol(argv[4],0,0); pthread_t t[16]; sched_init(NT,seed); for(long i=0;i<NT;i++) pthread_create(&t[i],0,w,(void*)i); for(int i=0;i<NT;i++) pthread_join(t[i],0); uint64_t s,sw,h; sched_stats(&s,&sw,&h); printf("seed=%lu steps=%lu switches=%lu hash=%016lx viol=%ld word=%x\n",seed,s,sw,h,viol,*(unsigned*)&mu); return viol?1:0; }
+void sched_deadlock_hook(void){}
